@@ -17,7 +17,7 @@ LEVEL_RULE = (
 )
 EXHAUSTIVE_SUBDOMAINS = ["DF 0..31 x {56,112} bits x {upper,lower,mixed} for structured addresses (single-bit, all-ones, zero)"]
 ASSUMPTIONS = ["canonical form = the string icao() returns for an upper-case DF20 frame of the same address (%06X)"]
-REQUIRED = ["df%d" % d for d in range(32)] + ["distinct_messages_pushed_through_by_4_threads", "ap_text_echoed_in_payload", "ap_field_boundary_value", "literal_structured_strings", "table_replies_of_strangers", "table_first_heard_by_tc0", "table_identical_repeats_for_minutes", "table_one_alive_through_replies_one_silent", "table_two_trackers_alive", "table_after_thousands_of_evictions", "table_identical_replies_two_aircraft", "case_upper", "case_lower", "case_mixed", "len56", "len112", "table_one_key",
+REQUIRED = ["df%d" % d for d in range(32)] + ["distinct_messages_pushed_through_by_4_threads", "ap_text_echoed_in_payload", "ap_field_boundary_value", "literal_structured_strings", "table_replies_of_strangers", "table_first_heard_by_tc0", "table_identical_repeats_for_minutes", "table_through_the_live_loop", "table_one_alive_through_replies_one_silent", "table_two_trackers_alive", "table_after_thousands_of_evictions", "table_identical_replies_two_aircraft", "case_upper", "case_lower", "case_mixed", "len56", "len112", "table_one_key",
                                               "allcall_rejects", "df_none"]
 
 AP = (0, 4, 5, 16, 20, 21)
@@ -140,6 +140,55 @@ def m_table(ctx, case):
     else:
         ctx.hit("table_one_key")
     ctx.nontrivial(("t", a, b))
+    if case.get("twin") and case.get("df") in (20, 21):
+        # through the live loop (Decode.run, fed by a pipe): one chunk with two squitters of X and three Comm-B replies - of a
+        # stranger, of X's one-bit twin (not heard before) and, last, of X - is merged under X's key with the LAST reply's stamp
+        import time as _t
+
+        class _Stop(BaseException):
+            pass
+        now = _t.time()
+        addr_y = addr ^ (1 << rng.randrange(24))
+        ax = "%028X" % bits.es_frame(17, 5, addr, me)
+        chunk = {"adsb_ts": [now - 3.0, now - 2.0], "adsb_msg": [ax, ax],
+                 "commb_ts": [now - 1.5, now - 1.2, now - 1.0],
+                 "commb_msg": ["%028X" % bits.commb_frame(case["df"], rng.fill(27), rng.fill(56), a_) for a_ in (rng.fill(24), addr_y, addr)]}
+
+        class _Raw:
+            def __init__(self):
+                self.q, self.idle = [chunk], 0
+
+            def poll(self):
+                if self.q:
+                    return True
+                self.idle += 1
+                if self.idle > 2:
+                    raise _Stop()
+                return False
+
+            def recv(self):
+                return self.q.pop(0)
+
+        class _Sink:
+            def __init__(self):
+                self.items = []
+
+            def send(self, x):
+                self.items.append(x)
+
+            put = send
+        d = Decode()
+        q_ = _Sink()
+        try:
+            d.run(_Raw(), _Sink(), q_)
+        except _Stop:
+            pass
+        ctx.ev()
+        kx = "%06X" % addr
+        if q_.items or set(d.acs) != {kx} or d.acs[kx].get("t") != now - 1.0:
+            ctx.violation("live-loop-does-not-merge-reply-under-its-address", chunk=chunk, keys=sorted(d.acs), t=d.acs.get(kx, {}).get("t"),
+                          expected_t=now - 1.0, exceptions=repr(q_.items)[:200])
+        ctx.hit("table_through_the_live_loop")
     if case.get("twin"):
         # X is heard first, then Y; from then on only X's Comm-B replies arrive (every 20 s for two minutes): Y times out on its
         # own clock - X, still alive at the head of the table, must not shield it - and a late reply of Y finds no key
